@@ -20,13 +20,15 @@ func init() {
 		"(2) remove_fields digs every configured path in full on every iteration of its loop (no path skipped, no early exit) and removes exactly that node; its path list is written only at Start from cfg.ParseNestedFields(config.Fields); "+
 		"(3) keep_fields examines every field of every visited object; a field name is queued for deletion only on ways on which it is not a configured leaf and the recursion below it found nothing to keep; the keep flag is raised only for a configured leaf or a successful recursion; queued names are deleted from the node they were found in, only at the top level or when the node itself is kept; the per-depth queue is emptied on every way out; the recursion descends by exactly that field with depth+1; a configured leaf reports true, a non-object reports false; "+
 		"(4) cfg.ParseNestedFields parses every listed selector, orders paths by length before comparing, and drops a path only when an earlier (shorter or equal) listed path is its prefix. "+
-		"NOT decided: equality with the naive project/subtract function on every event, selector syntax (escaped dots), key order of survivors.",
+		"(5) the removal primitive (insane-json Suicide, analysed in the pinned library's own SSA) keeps the order of the surviving keys - it does NOT on this tree: known finding K7. "+
+		"NOT decided: equality with the naive project/subtract function on every event, selector syntax (escaped dots).",
 		"go/types, go/ssa and x/tools call resolution are correct",
 		"insane-json: Dig/IsObject/AsFields/AsString do not modify the tree; Suicide removes exactly its receiver")
 	reg("C18", "C18.R1", "E1", "closed set of node methods; the only mutation is Suicide on a dug node", 2, ruleFieldsNodeMethods)
 	reg("C18", "C18.R2", "E2+E6", "remove_fields digs and removes every configured path in full", 2, ruleRemoveFieldsLoop)
 	reg("C18", "C18.R3", "E2+E6", "keep_fields: queue/keep/delete/reset discipline of the tree walk", 8, ruleKeepFieldsWalk)
 	reg("C18", "C18.R4", "E2", "ParseNestedFields drops a path only for a listed prefix", 3, ruleParseNestedFields)
+	reg("C18", "C18.R5", "E6", "the removal primitive keeps the order of the surviving keys", 1, ruleRemovalKeepsOrder)
 }
 
 // jsonMethod: name of an insane-json Node/Root method called by ci ("" otherwise).
@@ -652,7 +654,8 @@ func ruleParseNestedFields(c *Ctx, r *Rule) {
 	}
 	r.Inst(1)
 	r.Ob(parse != nil, name+"|parses-every-selector", fn.Pos(), "every listed selector is parsed into a path")
-	r.Ob(sortCall != nil && equal != nil, name+"|sorted-before-compare", fn.Pos(), "paths are ordered by length before prefixes are compared")
+	r.Ob(equal != nil, name+"|compares-by-segments", fn.Pos(), "prefixes are compared segment by segment (slices.Equal on path segments; joined text loses the boundary of a segment that contains a dot)")
+	r.Ob(sortCall != nil, name+"|sorted-before-compare", fn.Pos(), "paths are ordered by length before prefixes are compared")
 	if sortCall == nil || equal == nil {
 		return
 	}
@@ -719,4 +722,68 @@ func ruleParseNestedFields(c *Ctx, r *Rule) {
 		}
 	}
 	r.Ob(okPfx, name+"|compares-prefix-of-equal-length", equal.Pos(), "the comparison is between a listed path and the other path cut to the same length")
+}
+
+// ruleRemovalKeepsOrder: "key order of survivors is untouched" needs the removal primitive to
+// close the gap by shifting; a primitive that fills the freed slot with the LAST sibling
+// re-orders the survivors. Decided on the library's own SSA (the version /repo's go.mod pins).
+func ruleRemovalKeepsOrder(c *Ctx, r *Rule) {
+	var suicide *ssa.Function
+	for fn := range c.allFuncs {
+		if fn.Name() != "Suicide" || fn.Signature.Recv() == nil || fn.Blocks == nil || fn.Synthetic != "" {
+			continue
+		}
+		rn := namedOf(deref(fn.Signature.Recv().Type()))
+		if rn != nil && rn.Obj().Pkg() != nil && rn.Obj().Pkg().Path() == insanePkg && rn.Obj().Name() == "Node" {
+			suicide = fn
+		}
+	}
+	if suicide == nil {
+		r.Unresolved("insane-json (*Node).Suicide")
+		return
+	}
+	r.Inst(1)
+	isNodes := func(v ssa.Value) bool {
+		_, f, _, ok := loadedField(v)
+		return ok && f == "nodes"
+	}
+	n := 0
+	swaps := 0
+	var pos token.Pos
+	for _, b := range suicide.Blocks {
+		for _, in := range b.Instrs {
+			st, ok := in.(*ssa.Store)
+			if !ok {
+				continue
+			}
+			ia, isIA := st.Addr.(*ssa.IndexAddr)
+			if !isIA || !isNodes(ia.X) {
+				continue
+			}
+			n++
+			// value loaded from the same slice at index len-1
+			ld, isLd := st.Val.(*ssa.UnOp)
+			if !isLd || ld.Op != token.MUL {
+				continue
+			}
+			src, isSrc := ld.X.(*ssa.IndexAddr)
+			if !isSrc || !isNodes(src.X) {
+				continue
+			}
+			f := lin(src.Index)
+			if f.k == -1 && len(f.t) == 1 {
+				for key, cnt := range f.t {
+					if key.isLen && cnt == 1 && isNodes(key.v) {
+						swaps++
+						pos = st.Pos()
+					}
+				}
+			}
+		}
+	}
+	if pos == token.NoPos {
+		pos = suicide.Pos()
+	}
+	r.Ob(swaps == 0, "insane-json.Node.Suicide|keeps-sibling-order", pos,
+		fmt.Sprintf("removing a child keeps the order of its siblings: the freed slot is not filled with the last sibling (%d element stores, %d of them move nodes[len-1] into the freed slot)", n, swaps))
 }
